@@ -120,7 +120,9 @@ class Opaque:
         self.name = name; self.impl = impl; self.arg_bits = arg_bits; self.out_bits = out_bits
         OPAQUES[name] = self
     def __call__(self, *args):
-        if self.name in ACTIVE and any(_is_sym(a) for a in _flat(args)):
+        # uninterpreted in this obligation: EVERY application (also on constants) is the same UF, on the code
+        # side and on the spec side alike -- mixing UF(c) with the computed value f(c) would be unsound
+        if self.name in ACTIVE:
             from . import symctx
             return symctx.uf_apply(self, args)
         return self.impl(*args)
@@ -137,3 +139,17 @@ def opaque(name, arg_bits, out_bits):
     def deco(fn):
         return Opaque(name, fn, arg_bits, out_bits)
     return deco
+
+class WordFn:
+    """a family of spec functions on w-bit words, e.g. Ch(w; x,y,z): opaque per width when named in `opaque=`"""
+    def __init__(self, name, nargs, impl, out=None):
+        self.name = name; self.nargs = nargs; self.impl = impl; self.out = out
+        self._ops = {}
+    def __call__(self, w, *args):
+        if self.name in ACTIVE:
+            op = self._ops.get(w)
+            if op is None:
+                op = self._ops[w] = Opaque('%s_%d' % (self.name, w), lambda *a: self.impl(w, *a), [w] * self.nargs, self.out(w) if self.out else w)
+                ACTIVE.add(op.name)
+            return op(*args)
+        return self.impl(w, *args)
